@@ -171,6 +171,39 @@ func (r *Run) tagKnownPatterns(msg string) string {
 			}
 		}
 	}
+	// managed mode, non-monotonic commit timestamps: a write with an OLDER version was
+	// committed AFTER a newer delete marker of the key, and a compaction discarded that
+	// marker (it was at or below the discard timestamp and nothing older lay below it)
+	if r.c.Cfg.Managed {
+		for k, marks := range r.droppedMarkers {
+			if !strings.Contains(msg, fmt.Sprintf("%q", k)) {
+				continue
+			}
+			for _, t := range marks {
+				ti, vi, vver := -1, -1, uint64(0)
+				for ci, c := range r.model.Commits {
+					for _, w := range c.Writes {
+						if w.Key != k {
+							continue
+						}
+						ver := c.Ts
+						if w.Ver != 0 {
+							ver = w.Ver
+						}
+						if ver == t && w.Del && ti < 0 {
+							ti = ci
+						}
+						if ver < t && !w.Del && ti >= 0 && ci > ti && strings.Contains(msg, fmt.Sprintf("ver=%d ", ver)) {
+							vi, vver = ci, ver
+						}
+					}
+				}
+				if ti >= 0 && vi > ti {
+					return msg + fmt.Sprintf(" [pattern: managed-mode write %q@%d was committed after the newer delete marker %q@%d, which a compaction then discarded]", k, vver, k, t)
+				}
+			}
+		}
+	}
 	return msg
 }
 
